@@ -362,7 +362,7 @@ def _at_quiescence(st):
         for dq in st.by_key.values():
             for rec in dq:
                 signal = rec[3]
-                if signal is None or not signal._revoked:
+                if signal is None or not getattr(signal, '_revoked', False):
                     left += 1
                     sess.violation(
                         'kernel-unrun-activation',
@@ -433,7 +433,7 @@ def _purge(st, upto):
                     pass
                 if not dq:
                     del st.by_key[key]
-            if signal is None or not signal._revoked:
+            if signal is None or not getattr(signal, '_revoked', False):
                 sess.violation(
                     'kernel-skipped-activation',
                     'clock moved past %r but an unrevoked activation of %s due then never ran'
@@ -523,7 +523,7 @@ def _w_run_coroutine(self, target, signal=None):
         sess.stats['untracked_activation'] += 1
     # ---- ownership ----
     if signal is not None:
-        if isinstance(signal, Interrupt) and signal._revoked:
+        if isinstance(signal, Interrupt) and getattr(signal, '_revoked', False):
             sess.violation('kernel-revoked-delivered',
                            'revoked %s delivered to %s' % (
                                type(signal).__name__, sess.label_of(target)))
